@@ -744,6 +744,12 @@ def _len(rng: random.Random, mp: int, cap: int) -> int:
     return max(1, min(v, cap))
 
 
+def _otp_index(rng: random.Random) -> int:
+    """OTP word index; the bits above 23 are flags of the command (bit 24: lock the word), they travel with the index."""
+    i = rng.randrange(0, 64)
+    return i | rng.choice([0, 0, 0, 1 << 24, 1 << 24, 1 << 31, 0x7F00_0000])
+
+
 def gen_op(rng: random.Random, mp: int, transport: str, cap: int) -> dict:
     name = rng.choice(
         ["write_memory"] * 6 + ["read_memory"] * 6 + ["fill_memory"] * 2 + ["flash_erase_region"] * 2 + ["get_property"] * 3 + ["set_property"] * 2
@@ -789,11 +795,11 @@ def gen_op(rng: random.Random, mp: int, transport: str, cap: int) -> dict:
     elif name == "reliable_update":
         o.update(addr=addr)
     elif name == "flash_program_once":
-        o.update(index=rng.randrange(0, 64), len=rng.choice([4, 8]), dseed=rng.randrange(1 << 30))
+        o.update(index=_otp_index(rng), len=rng.choice([4, 8]), dseed=rng.randrange(1 << 30))
     elif name == "flash_read_once":
         o.update(index=rng.randrange(0, 64), len=rng.choice([4, 8]))
     elif name == "efuse_program_once":
-        o.update(index=rng.randrange(0, 64), value=rng.randrange(1 << 32), verify=rng.random() < 0.5)
+        o.update(index=_otp_index(rng), value=rng.randrange(1 << 32), verify=rng.random() < 0.5)
     elif name == "efuse_read_once":
         o.update(index=rng.randrange(0, 64))
     elif name == "flash_read_resource":
